@@ -20,7 +20,9 @@ PASS_THROUGH = {"std::option::Option::unwrap", "std::option::Option::expect", "s
                 "std::ops::Try::branch", "std::option::Option::ok_or", "std::option::Option::ok_or_else",
                 "std::convert::Into::into", "std::convert::From::from", "std::result::Result::ok"}
 EXTRA = ("chmux::receiver::Receiver::recv_any", "chmux::receiver::Receiver::recv_chunk", "chmux::receiver::Receiver::recv",
-         "rch::base::receiver::Receiver::recv", "rch::mpsc::receiver::Receiver::recv", "rch::mpsc::receiver::Receiver::recv_many")
+         "rch::base::receiver::Receiver::recv", "rch::mpsc::receiver::Receiver::recv", "rch::mpsc::receiver::Receiver::recv_many",
+         # fetch-once caches: get() / into_inner() are ordinary futures a caller may drop and retry
+         "robj::lazy::Lazy::fetch", "robj::lazy_blob::LazyBlob::fetch")
 
 
 def _is_mut_self_async(F, path):
@@ -193,7 +195,7 @@ def frames_rule(ck, F, rid):
     ck.expect(n >= 2, "queue-frames#sites", f"{n} queue receives", f"only {n} queue receives found", None)
 
 
-def rule(ck, F, rid, only=None, floor=3):
+def rule(ck, F, rid, only=None, floor=3, min_fns=3):
     ck.rule(rid, "cancel-safe state: in every `&mut self` async fn that the library polls as a select! branch (or that such a "
             "function awaits, or that the properties name as a cancellation point) a value taken out of self with mem::take / "
             "mem::replace / Option::take is moved on or dropped before every suspension point that can follow; it is never "
@@ -211,5 +213,5 @@ def rule(ck, F, rid, only=None, floor=3):
                   f"{fn}: the value taken out of {place[:80]} at {b.loc(bb)} is still held in a local at the suspension point "
                   f"{b.loc(y) if y is not None else ''}; dropping the future there loses it ({sc[fn]})", b.loc(bb),
                   {"function": fn, "scope_reason": sc[fn]})
-    ck.expect(len(fns) >= 3, "scope#functions", f"{len(fns)} cancel-safe functions in scope, {n} take sites",
+    ck.expect(len(fns) >= min_fns, "scope#functions", f"{len(fns)} cancel-safe functions in scope, {n} take sites",
               f"only {len(fns)} functions in scope", None)
